@@ -8,6 +8,10 @@ TECH = "bounded symbolic execution of the real code's go/ssa with SMT (z3 QF_BV)
 
 # property -> dict(text, note, design_ref)
 CLAIMED = {
+ "C01": dict(
+  text="Bounded symbolic execution of the real per-connection loop (Proxy.handleLoop, handle, readRequest, roundTrip, isCloseable, context linking) from SSA together with net/http's own ReadRequest, Response.Write, ReadResponse and body framing code, which is executed, not modelled. A scripted client connection carries 1..N requests (pipelined or not) with symbolic path/query characters, header values and body bytes; the origin is a round tripper that answers from scripted wire bytes in each framing. Asserted: the origin sees each request exactly once until one side asks to close, with the same method, path and query, header value and body bytes; the client parses exactly one complete response per request, in order, with the origin's status, header value and body bytes; the connection is closed when the loop ends and no later request is served after a close.",
+  note="Bounds: one request with full variety (GET/POST/HEAD, origin/absolute form, Content-Length or chunked body of 0..1 symbolic bytes, Connection: close or not; origin 200/404/204 framed by Content-Length, chunking or connection close), and sequences of 2 (quick) / 2..3 (thorough) requests with reduced variety. Symbolic text bytes are restricted to lower-case alphanumerics; multi-megabyte bodies and real sockets are outside the bound. Trusted: go/ssa, symgo (scheduler included), z3.",
+  ref="DESIGN.md section 6, C01"),
  "C19": dict(
   text="Bounded symbolic execution of the real marbl code from SSA. (a) Reader: ReadFrame on a fully symbolic input buffer cut at every length: z3 shows, for every byte value within the bound, no Go panic, frame XOR error, error iff the declared lengths do not fit, decoded fields equal to an independent parse (this found the 32-bit length wrap). (b) Stream: LogRequest + bodyLogger with symbolic id and header value bytes and scripted body reads; every Write to the sink is exactly one whole frame, frames decode (real Reader and independent parser) to the message's pseudo-headers and headers, data frames have contiguous indices from 0, concatenate to what the consumer read and end with a terminal frame iff the body reached EOF. (c) Concurrency: two logging goroutines and the stream's writer goroutine under the engine's cooperative scheduler, every schedule within the preemption bound: frames are never torn or interleaved within a frame and per-message order is kept.",
   note="Bounds: reader input = 19+k bytes, k=3 quick / 6 thorough, 32-bit sum of declared lengths <= k (wrapping sums included); stream: 1..2 (quick) / 1..3 (thorough) scripted reads of 0..2 bytes; concurrency: 2 messages x 3 frames, preemption bound 1 (quick, 60k schedules) / 2 (thorough, 1.6M schedules). Trusted: go/ssa, the symgo interpreter and scheduler, z3; bufio/io/encoding/binary are executed from SSA.",
